@@ -89,9 +89,29 @@ func c06Addr(b byte) common.Address {
 }
 
 func c06Amount(tag string) cstates.NativeTokenBalance {
-	v := nondetBig(tag, 90)
+	v := nondetBig(tag, param("bits"))
 	assume(v.Sign() >= 0)
 	return cstates.NativeTokenBalance{Balance: bigint.New(v)}
+}
+
+// The balance storage-item codec (checked separately under C21) is replaced by a token table: a stored
+// value is one byte naming an entry of c06Vals (see spec.json stubs).
+var c06Vals []cstates.NativeTokenBalance
+
+func c06Encode(b cstates.NativeTokenBalance) []byte {
+	c06Vals = append(c06Vals, b)
+	return []byte{byte(len(c06Vals))}
+}
+
+func c06Decode(cache *storage.CacheDB, key []byte) (cstates.NativeTokenBalance, error) {
+	v, err := cache.Get(key)
+	if err != nil {
+		return cstates.NativeTokenBalance{}, err
+	}
+	if len(v) == 0 {
+		return cstates.NativeTokenBalanceFromInteger(0), nil
+	}
+	return c06Vals[int(v[0])-1], nil
 }
 
 func c06Get(cache *storage.CacheDB, key []byte) *big.Int {
@@ -106,6 +126,7 @@ func Harness_C06_transfers() {
 		ctx.accounts[i] = c06Addr(byte(0x11 * (i + 1)))
 		ctx.witness[i] = nondetBool("witness")
 	}
+	c06Vals = nil
 	cache := storage.NewCacheDB(overlaydb.NewOverlayDB(&c06Store{}))
 	ns := &native.NativeService{CacheDB: cache, ContextRef: ctx}
 	if nondetBool("after.deadline") {
